@@ -732,6 +732,9 @@ func execPackage(path string) bool {
 		return true
 	case path == "golang.org/x/mod/semver", path == "errors":
 		return true
+	case path == "github.com/caarlos0/go-version":
+		// option constructors are executed; GetVersionInfo is an intrinsic
+		return true
 	}
 	return false
 }
@@ -1726,6 +1729,8 @@ func (m *Machine) mapFind(mr MapRef, k Value) int {
 	if mr.M == nil || len(mr.M.Keys) == 0 {
 		return -1
 	}
+	// a lazily decomposed regexp capture used as a key is a symbolic string
+	k = forceLazy(k)
 	// concrete fast path
 	allConcrete := !isSym(k)
 	if allConcrete {
@@ -1802,6 +1807,7 @@ func (m *Machine) mapUpdate(mv, k, v Value) {
 	if mr.M == nil {
 		panic(goPanic{msg: "assignment to entry in nil map"})
 	}
+	k = forceLazy(k)
 	idx := m.mapFind(mr, k)
 	if idx >= 0 {
 		mr.M.Vals[idx] = v
